@@ -217,18 +217,63 @@ def hash_seed_part(ctx):
                 ctx.violation({"kind": "hash-seed", "case": {"files": sorted(fs)}, "diff": [("read_namespace list", names)]})
             ctx.nontriv("hashseed")
 
+# Two files of one name and version inside the root namespace ("twins": the legacy suffix, a port-ID prefix): both are definition
+# files of the namespace.  Bodies: equal / same layout but another field name, constant or comment / another layout.
+TWIN_SECOND = ["T.1.0.uavcan", "7000.T.1.0.dsdl"]
+TWIN_BODIES = {"equal": "uint8 a\n@sealed\n", "field-name": "uint8 b\n@sealed\n", "constant": "uint8 a\nuint8 K = 1\n@sealed\n",
+               "comment": "# other\nuint8 a\n@sealed\n", "layout": "uint16 a\n@sealed\n", "kind": "uint8 a\n@sealed\n---\n@sealed\n",
+               "extent": "uint8 a\n@extent 64\n"}
+
+def twin_worker(arg):
+    """read_namespace over a root with twin files under several hash seeds (subprocesses): the outcome must not vary with the seed,
+    and an accepted namespace yields one composite per definition file."""
+    import subprocess, sys, json
+    second, body = arg
+    fs = {"vnd/T.1.0.dsdl": "uint8 a\n@sealed\n", "vnd/" + second: TWIN_BODIES[body], "vnd/Other.1.0.dsdl": "@sealed\n"}
+    prog = ("import sys, json; sys.path.insert(0, sys.argv[1]); sys.dont_write_bytecode = True\nimport pydsdl, logging\n"
+            "logging.disable(logging.CRITICAL)\n"
+            "try:\n    r = pydsdl.read_namespace(sys.argv[2], allow_unregulated_fixed_port_id=True)\n"
+            "    print(json.dumps(['ok', [[t.full_name, t.source_file_path.name, [f.name for f in t.fields], [c.name for c in t.constants], t.doc, t.fixed_port_id] for t in r]]))\n"
+            "except pydsdl.InvalidDefinitionError as ex:\n    print(json.dumps(['ide', type(ex).__name__]))\n"
+            "except Exception as ex:\n    print(json.dumps(['raw', type(ex).__name__, str(ex)[:200]]))\n")
+    outs = []
+    with dsdlio.Tree(fs, "c10tw") as tr:
+        for seed in (0, 1, 2, 3, 7, 11):
+            p = subprocess.run([sys.executable, "-c", prog, str(core.REPO), tr.path("vnd")], capture_output=True, text=True,
+                               env=dict(os.environ, PYTHONHASHSEED=str(seed), OPENCYPHAL_PYDSDL_VERIF=""), timeout=120)
+            if p.returncode != 0 or not p.stdout.strip():
+                return {"harness_exception": "twin subprocess failed: %s" % p.stderr[-300:]}
+            outs.append(json.loads(p.stdout.strip().splitlines()[-1]))
+    diff = []
+    if any(o != outs[0] for o in outs):
+        diff.append(("the outcome varies with the hash seed", [o for o in outs if o != outs[0]][0], outs[0]))
+    for o in outs:
+        if o[0] == "raw":
+            diff.append(("exception other than InvalidDefinitionError", o))
+            break
+        if o[0] == "ok" and sorted(x[1] for x in o[1]) != sorted(["T.1.0.dsdl", os.path.basename(second), "Other.1.0.dsdl"]):
+            diff.append(("accepted, but not one composite per definition file", sorted(x[1] for x in o[1])))
+            break
+    r = {"nt": True, "key": core.jhash([second, body])}
+    if diff:
+        # twins whose composites compare equal (name, version, layout) are merged silently - see known_findings.json
+        r["bad"] = {"kind": "twin-files", "same_layout": body in ("equal", "field-name", "constant", "comment"),
+                    "case": {"second": second, "body": body}, "diff": diff}
+    return r
+
 def run(ctx):
     ctx.rule = ("TLC enumerates (1) directory trees of <= MaxFiles files over root/lookup x depth 0-2 x names x versions x "
                 ".dsdl/.uavcan with every enumeration order of the glob/set pipeline, (2) directory argument lists "
                 "(root, <= 2 lookups, 7 resolved directories incl. nested, case variants, same name under another parent) "
                 "x 3 spellings x allow flag, (3) read_files target subsets over Reader configurations. Each state is "
                 "materialised and read; lists compared exactly (names, versions, source paths, order). The same namespace "
-                "is re-read under 5 (quick) / 24 (thorough) hash seeds and with reordered / duplicated arguments. "
+                "is re-read under 5 (quick) / 24 (thorough) hash seeds and with reordered / duplicated arguments; histories of two "
+                "calls that pass the same list objects as directory arguments (Sessions.tla, one process per history) return what each call returns alone. "
                 "Non-trivial = at least two files / one lookup argument / two definitions")
     ctx.assumptions = ["file-system enumeration order cannot be forced from user space: all orders are explored on the "
                        "specification (OrderIndependent); hash-seed variation is forced in subprocesses",
                        "no case-insensitive file system in the sandbox",
-                       "namespaces in which two files define the same name and version are excluded (C13 covers them)"]
+                       "namespaces in which two files define the same name and version are excluded from the enumerated trees; a fixed family of such twins is read under six hash seeds"]
     quick = ctx.tier == "quick"
     c02.run_cfg(ctx, "Namespaces", "NS_tree_quick.cfg" if quick else "NS_tree_thorough.cfg", tree_worker, "tree",
                 mk=lambda blocks: [(b, ctx.seed, 6 if quick else 8) for b in blocks])
@@ -239,6 +284,12 @@ def run(ctx):
                 mk=lambda blocks: [(b, 16 if quick else 6) for b in blocks])
     ctx.exhaustive = False
     hash_seed_part(ctx)
+    c02.consume(ctx, core.pmap(twin_worker, [(a, b) for a in TWIN_SECOND for b in TWIN_BODIES], chunksize=1), "twins")
+    # directory arguments are inputs, not state: histories of calls (Sessions.tla) in which the calls pass one and the same list
+    # objects - each call must return what it returns alone
+    from .. import session_replay
+    c02.run_cfg(ctx, "Sessions", "Sessions_quick.cfg", session_replay.worker, "sess",
+                mk=lambda blocks: [(b, 6, 3 if quick else 1) for b in blocks])
     ctx.sample({"tree": ["troot/r/P.1.0.dsdl", "troot/r/n1/P.1.1.uavcan", "lroot/k/Q.2.0.dsdl"], "expected": ["r.P.1.0", "r.n1.P.1.1"]})
 
 def replay(ctx, rec):
